@@ -41,6 +41,17 @@ CHECKS["C13"] = ("TLC deadlock check of Listeners.tla + TLC schedules (incl. the
     "(2 s) to expire with listen/close calls outstanding; slow machines cannot cause it because gates are opened first.",
     "DESIGN.md section 4 C13, 9a, 9d")
 
+CHECKS["C19"] = ("per shared component: hook-linearized concurrent traces validated by TLC against the component's sequential TLA+ "
+    "specification (linearizability) + the same spec-driven drivers run under the Go race detector (monitor)",
+    "Each shared component has a sequential TLA+ specification (ReplayCache, Listeners, CipherList, UdpNat, TunnelTime). Concurrent "
+    "drivers (2-64 goroutines) record every operation at its linearization point and TLC must explain all recorded results by the "
+    "sequential specification. Whether the compiled code performs unsynchronised conflicting accesses is a memory-model fact that no "
+    "trace of API events shows; for that half the same drivers are built with -race and every report with a frame in the repository "
+    "is a violation. That half is a runtime monitor riding on the conformance harness, not a model-checking result.",
+    "The race detector only sees interleavings that occur in the run. Components whose parts are not built yet are listed under "
+    "coverage.skipped in the evidence.",
+    "DESIGN.md section 4 C19")
+
 PENDING = {}
 
 def main():
